@@ -30,7 +30,7 @@ def make_variant(p, kind, rng):
     if kind in ("rename", "all"):
         # (no name contains `h`: in an ISA with a glued suffix letter, `mov {x}h`, the operand `thetah` is not the
         # operand `l0h` renamed -- the expression stops at the first `h` -- so such a renaming is not meaning-preserving)
-        pool = rng.shuffle(["alfa", "beta_1", "Gamma", "delta9", "_eps", "zed", "eta", "tau", "iota", "kappa", "mu2", "nu", "xi", "rho_0", "sigma", "omega"])
+        pool = rng.shuffle(["alfa", "beta_1", "Gamma", "delta9", "_eps", "zed", "eta", "tau", "iota", "kappa", "mu2", "nu", "xi", "pi_0", "sigma", "omega"])
         rename = {n: pool[i] for i, n in enumerate(p.names)}
     if kind == "all":
         style = {"case": "mixed", "space": True, "comments": True, "trailing": True}
